@@ -315,6 +315,22 @@ class Top_{uid}(Component):
         s.m.i[i] @= s.a[i]
       s.m.i[0] @= s.a[0]
 ''',
+  # F31: Interface.inverse() re-assigns every scalar port, which the field re-assignment guard rejects
+  "interface_inverse": '''
+from pymtl3 import *
+class If_{uid}(Interface):
+  def construct(s):
+    s.msg = InPort(Bits8)
+    s.rdy = OutPort(Bits1)
+class Top_{uid}(Component):
+  def construct(s):
+    s.x = If_{uid}().inverse()
+    s.o = OutPort(Bits8)
+    @update
+    def up():
+      s.x.msg @= 3
+      s.o @= zext(s.x.rdy, 8)
+''',
   # F10: x.f.g //= y does setattr on a lazily created field signal
   "floordiv_on_nested_field": '''
 from pymtl3 import *
